@@ -47,6 +47,13 @@ fn constant_rich() -> Vec<String> {
         V::Ts(1_700_000_000 * NS + 123_000_000),
         V::Ts(253_402_300_799 * NS),
         V::Ts(-62_135_596_800 * NS),
+        // before the epoch with a millisecond part (floor and truncation differ)
+        V::Ts(-750_000_000),
+        V::Ts(-1_250_000_000),
+        V::Ts(-62_135_596_800 * NS + 500_000_000),
+        V::Ts(-86_400 * NS - 1_000_000),
+        V::Dur(-750_000_000),
+        V::Dur(-1_000_000),
         V::Dur(0),
         V::Dur(90 * NS),
         V::Dur(-1_500_000_000),
@@ -127,6 +134,17 @@ fn constant_rich() -> Vec<String> {
                 }
             }
         }
+    }
+    // folded type constants of every type, and identifiers of every lexical shape among the parameters
+    for c in ["type([1])", "type({})", "type({'a': 1})", "type(null)", "type(1u)", "type(1.5)", "type(b'a')", "type(true)", "type(type(1))", "type(timestamp(0))", "type(duration('1s'))", "type('a')", "[type([]), type(null)]", "x == type([1])"] {
+        v.push(c.to_string());
+        v.push(format!("[{}, x]", c));
+    }
+    for id in ["_tmp", "__x", "_", "_1", "x_", "X", "x1", "camelCase", "a_b_c"] {
+        v.push(format!("{} + 1", id));
+        v.push(format!("[1].map(i, {})", id));
+        v.push(format!("f'{{{}}}'", id));
+        v.push(format!("has({}.a)", id));
     }
     // constants that only a folded call can produce (the literal -0.0 is PUSH 0.0; NEG)
     for c in ["double('-0.0')", "double('-0')", "double('inf')", "double('-inf')", "double('nan')", "double('1e400')", "double('5e-324')", "double(-0)", "pow(-0.0 - 0.0, 3)", "sqrt(double('-0.0'))"] {
